@@ -533,6 +533,16 @@ func writeEvidence(p *Program, id, tier string, cfg *PropConfig, results []*Func
 			samples = append(samples, map[string]interface{}{"obligation": o.ID, "kind": o.Kind, "status": o.Status, "solver": o.Solver, "seconds": round3(o.Seconds), "at": o.Pos})
 		}
 	}
+	// the slowest queries: how far the check is from its per-query time limit
+	byTime := append([]*Obligation{}, obls...)
+	sort.Slice(byTime, func(i, j int) bool { return byTime[i].Seconds > byTime[j].Seconds })
+	var slowest []interface{}
+	for i, o := range byTime {
+		if i >= 5 {
+			break
+		}
+		slowest = append(slowest, map[string]interface{}{"obligation": o.ID, "solver": o.Solver, "seconds": round3(o.Seconds)})
+	}
 	kinds := map[string]int{}
 	for _, o := range obls {
 		kinds[o.Kind]++
@@ -583,6 +593,7 @@ func writeEvidence(p *Program, id, tier string, cfg *PropConfig, results []*Func
 		"checker_cmd":              fmt.Sprintf("/verif/govc/bin/govc check %s --tier %s", id, tier),
 		"trusted_base":             trusted,
 		"samples":                  samples,
+		"slowest_queries":          slowest,
 		"obligation_kinds":         kinds,
 		"functions_under_contract": under,
 		"functions_swept":          len(sweepFns),
